@@ -157,3 +157,39 @@ def single(items, what):
     if len(items) != 1:
         raise AnalysisError('expected exactly one %s, found %d' % (what, len(items)))
     return items[0]
+
+
+def deep_sources(repo, fi, expr, at, depth=2):
+    """Local derivation closure of `expr`, continued into the return values of repo functions it calls.
+    Returns a list of (FuncInfo, expression)."""
+    from .core import walk_shallow as _ws
+    out = []
+    seen = set()
+
+    def go(fi, expr, at, depth):
+        try:
+            srcs = fi.flow.sources(expr, at)
+        except AnalysisError:
+            srcs = [expr]
+        for e in srcs:
+            if id(e) in seen:
+                continue
+            seen.add(id(e))
+            out.append((fi, e))
+            if depth <= 0:
+                continue
+            for c in ast.walk(e):
+                if isinstance(c, ast.Call):
+                    nm = dotted(c.func)
+                    callee = None
+                    if nm:
+                        q = repo.resolve_dotted(fi.module, nm)
+                        callee = repo.funcs.get(q) if q else None
+                        if callee is None and nm.startswith('self.') and fi.cls:
+                            callee = repo.find_method('%s:%s' % (fi.module.name, fi.cls), nm[5:])
+                    if callee is not None and callee is not fi:
+                        for r in _ws(callee.node):
+                            if isinstance(r, ast.Return) and r.value is not None:
+                                go(callee, r.value, r, depth - 1)
+    go(fi, expr, at, depth)
+    return out
